@@ -113,6 +113,7 @@ type Contracts struct {
 	RepInvs map[string]*RepInv // pkgpath.TypeName
 	Files   []string
 	Lines   int
+	overlay map[string][]byte
 }
 
 var kwRe = regexp.MustCompile(`^(func|prop|requires|ensures|modifies|loop|site|trusted|inline|let|pure|axiom|lemma|invariant|nopanic|maypanic|finding|ispure|witness|uses|repinv|frozenclock|readsclock|rec|hides)\b`)
@@ -121,9 +122,10 @@ func LoadContracts(p *Program) (*Contracts, error) {
 	cs := &Contracts{Fns: map[string]*Contract{}, Pures: map[string]*PureFn{}, RepInvs: map[string]*RepInv{}}
 	for _, pkg := range p.Pkgs {
 		for _, f := range pkg.CompiledGoFiles {
-			if filepath.Base(f) != "zz_contracts_verif.go" {
+			if b := filepath.Base(f); !(strings.HasPrefix(b, "zz_contracts") && strings.HasSuffix(b, "_verif.go")) {
 				continue
 			}
+			cs.overlay = p.Overlay
 			if err := cs.parseFile(f, pkg.Types); err != nil {
 				return nil, err
 			}
@@ -140,9 +142,13 @@ type rawClause struct {
 }
 
 func (cs *Contracts) parseFile(path string, pkg *types.Package) error {
-	data, err := os.ReadFile(path)
-	if err != nil {
-		return err
+	data, ok := cs.overlay[path]
+	if !ok {
+		var err error
+		data, err = os.ReadFile(path)
+		if err != nil {
+			return err
+		}
 	}
 	var clauses []rawClause
 	for i, ln := range strings.Split(string(data), "\n") {
